@@ -321,6 +321,31 @@ fn vol_oracle(first: bool, mp: &Mapping<Decibels>, lpos: Vec3, tp: Vec3, t1: f64
 	let db = Decibels::interpolate(prev, cur, t1);
 	amp_oracle(db.0, tab32);
 }
+/// The arguments with which the attenuation stage reaches libm (mirror of the data path up to there).
+#[allow(clippy::too_many_arguments)]
+fn atten_oracle(easing: Option<Easing>, dmin: f32, dmax: f32, li: &ListenerInfo, em: &Em, t: f32, tab64: &mut Vec<(f64, f64, f64)>, tab32: &mut Vec<(f32, f32, f32)>) {
+	if let Some(e) = easing {
+		let lp_t = v3(li.previous_position).lerp(v3(li.position), t);
+		let p_t = em.pp + (em.p - em.pp) * t;
+		let d = (lp_t - p_t).length();
+		let rd = if dmax <= dmin {
+			Some(if d >= dmax { 1.0f32 } else { 0.0 })
+		} else if dmin <= dmax {
+			Some((d.clamp(dmin, dmax) - dmin) / (dmax - dmin))
+		} else {
+			None
+		};
+		if let Some(rd) = rd {
+			let x = (1.0 - rd) as f64;
+			if !x.is_nan() {
+				easing_oracle(e, x, tab64);
+			}
+			let rv = apply_easing(e, x) as f32;
+			let db = Decibels::interpolate(Decibels::SILENCE, Decibels::IDENTITY, rv as f64);
+			amp_oracle(db.0, tab32);
+		}
+	}
+}
 /// One frame of one chunk as a case for the model.  `li` is what `Info::listener_info` returned
 /// in that chunk (None: no listener), `em` the emitter parameters of the chunk.
 #[allow(clippy::too_many_arguments)]
@@ -330,28 +355,7 @@ fn emit_case(s: &mut Session, kind: &str, scn: &Scn, li: Option<&ListenerInfo>, 
 	let t = (i as f64 / n as f64) as f32;
 	let t1 = (i + 1) as f64 / n as f64;
 	if let Some(li) = li {
-		// the arguments with which the implementation reaches libm (mirror of the data path up to there)
-		if let Some(e) = scn.easing {
-			let lp_t = v3(li.previous_position).lerp(v3(li.position), t);
-			let p_t = em.pp + (em.p - em.pp) * t;
-			let d = (lp_t - p_t).length();
-			let rd = if scn.dmax <= scn.dmin {
-				Some(if d >= scn.dmax { 1.0f32 } else { 0.0 })
-			} else if scn.dmin <= scn.dmax {
-				Some((d.clamp(scn.dmin, scn.dmax) - scn.dmin) / (scn.dmax - scn.dmin))
-			} else {
-				None
-			};
-			if let Some(rd) = rd {
-				let x = (1.0 - rd) as f64;
-				if !x.is_nan() {
-					easing_oracle(e, x, &mut tab64);
-				}
-				let rv = apply_easing(e, x) as f32;
-				let db = Decibels::interpolate(Decibels::SILENCE, Decibels::IDENTITY, rv as f64);
-				amp_oracle(db.0, &mut tab32);
-			}
-		}
+		atten_oracle(scn.easing, scn.dmin, scn.dmax, li, em, t, &mut tab64, &mut tab32);
 		if let Some(mp) = &scn.pre {
 			vol_oracle(first, mp, v3(li.position), em.tp, t1, &mut tab64, &mut tab32);
 		}
@@ -654,6 +658,106 @@ fn gen_scn(r: &mut Rng) -> Scn {
 	scn
 }
 
+// ---------------------------------------------------------------- a spatial track inside a spatial track
+#[derive(Clone, Debug)]
+struct Stage {
+	lpos: Vec3,
+	lq: Quat,
+	epos: Vec3,
+	dmin: f32,
+	dmax: f32,
+	easing: Option<Easing>,
+	strength: f32,
+	exists: bool,
+}
+fn gen_stage(r: &mut Rng) -> Stage {
+	let g = gen_scn(r);
+	Stage { lpos: g.lpos, lq: g.lq, epos: g.epos, dmin: g.dmin, dmax: g.dmax, easing: g.easing, strength: g.strength, exists: !r.chance(1, 8) }
+}
+fn static_info(st: &Stage) -> ListenerInfo {
+	let p = mint::Vector3 { x: st.lpos.x, y: st.lpos.y, z: st.lpos.z };
+	let q = mint::Quaternion { v: mint::Vector3 { x: st.lq.x, y: st.lq.y, z: st.lq.z }, s: st.lq.w };
+	ListenerInfo { position: p, orientation: q, previous_position: p, previous_orientation: q }
+}
+fn stage_lists(st: &Stage, t: f32, tab64: &mut Vec<(f64, f64, f64)>, tab32: &mut Vec<(f32, f32, f32)>) -> (String, String, String) {
+	let (ek, ep) = st.easing.map(easing_code).unwrap_or((0, 0));
+	let cfg = format!("[{}; {}; {}; {}; {}]", f32_bits_z(st.dmin), f32_bits_z(st.dmax), if st.easing.is_some() { 1 } else { 0 }, ek, z(ep));
+	let em = Em { pp: st.epos, p: st.epos, ps: st.strength, s: st.strength, tp: st.epos };
+	let li = static_info(st);
+	if st.exists {
+		atten_oracle(st.easing, st.dmin, st.dmax, &li, &em, t, tab64, tab32);
+	}
+	let lst = if st.exists { fl(&listener_list(&li)) } else { "[]".to_string() };
+	let emv = fl(&[em.pp.x, em.pp.y, em.pp.z, em.p.x, em.p.y, em.p.z, em.ps, em.s]);
+	(cfg, lst, emv)
+}
+fn run_nested(s: &mut Session, r: &mut Rng) {
+	let parent = gen_stage(r);
+	let child = gen_stage(r);
+	let input = gen_input(r);
+	let buf = *r.pick(&[1usize, 1, 2]);
+	let mut m = simple_manager(SR, buf);
+	// ids of listeners that this manager never had: taken from another manager, from slots this one leaves empty
+	let mut other = simple_manager(SR, buf);
+	let mut foreign = vec![];
+	for _ in 0..6 {
+		foreign.push(other.add_listener(Vec3::ZERO, Quat::IDENTITY).unwrap());
+	}
+	let mut keep = vec![];
+	let mut id_of = |st: &Stage, m: &mut Mgr, slot: usize| {
+		if st.exists {
+			let h = m.add_listener(st.lpos, st.lq).unwrap();
+			let id = h.id();
+			keep.push(h);
+			id
+		} else {
+			foreign[4 + slot].id()
+		}
+	};
+	let ida = id_of(&parent, &mut m, 0);
+	let idb = id_of(&child, &mut m, 1);
+	let builder = |st: &Stage| SpatialTrackBuilder::new().distances((st.dmin, st.dmax)).attenuation_function(st.easing).spatialization_strength(st.strength);
+	let mut pt = m.add_spatial_sub_track(ida, parent.epos, builder(&parent)).unwrap();
+	let mut ct = pt.add_spatial_sub_track(idb, child.epos, builder(&child)).unwrap();
+	let log: Log = Arc::new(Mutex::new(vec![]));
+	ct.play(DcData(Frame::new(input.0, input.1), log.clone())).unwrap();
+	let describe = format!("nested spatial tracks: parent {parent:?}; child {child:?}; input {input:?}; buffer {buf}");
+	for k in 0..2 {
+		let o = catch(|| m.backend_mut().callback_stereo(buf));
+		let probe = log.lock().unwrap().get(k).copied();
+		if let Some(p) = probe {
+			// the sound sits on the child: it must see the child's listener and emitter
+			if p.li.is_some() != child.exists {
+				s.fail(describe.clone(), format!("callback {k}: the sound on the inner track sees listener_info().is_some() = {}", p.li.is_some()), None);
+			}
+			if child.exists && p.dist.map(obs32) != Some(obs32(child.lpos.distance(child.epos))) {
+				s.fail(describe.clone(), format!("callback {k}: listener_distance() on the inner track = {:?}, expected {:?}", p.dist, child.lpos.distance(child.epos)), None);
+			}
+		}
+		match o {
+			Outcome::Ok(frames) => {
+				for (i, f) in frames.iter().enumerate() {
+					let t = (i as f64 / buf as f64) as f32;
+					let (mut tab64, mut tab32) = (vec![], vec![]);
+					let (c1, l1, e1) = stage_lists(&child, t, &mut tab64, &mut tab32);
+					// the parent's libm calls do not depend on its input, only on positions
+					let (c2, l2, e2) = stage_lists(&parent, t, &mut tab64, &mut tab32);
+					let term = format!("CNest {} {} {} {} {} {} {} {} {} {} {} {}", fl(&ear_consts()), c1, l1, e1, c2, l2, e2, fl(&[input.0, input.1]), i, buf, tab64s(&tab64), tab32s(&tab32));
+					let key = format!("{parent:?}{child:?}{input:?}{i}{buf}");
+					s.case("nested_spatial", term, &[0, obs32(f.left), obs32(f.right)], if parent.exists && child.exists && input != (0.0, 0.0) { Some(key) } else { None });
+					if !(f.left.is_finite() && f.right.is_finite()) {
+						s.fail(describe.clone(), format!("callback {k} frame {i}: output {f:?} is not finite"), None);
+					}
+					if (!parent.exists || !child.exists) && (f.left.to_bits() != 0 || f.right.to_bits() != 0) {
+						s.fail(describe.clone(), format!("callback {k} frame {i}: output {f:?} although a listener on the path does not exist"), None);
+					}
+				}
+			}
+			_ => s.fail(describe.clone(), format!("callback {k}: audio thread panicked: {}", last_panic()), None),
+		}
+	}
+}
+
 // ---------------------------------------------------------------- monitors of the relational laws
 fn rot64(q: Quat, v: [f64; 3]) -> [f64; 3] {
 	let (x, y, z, w) = (q.x as f64, q.y as f64, q.z as f64, q.w as f64);
@@ -948,6 +1052,10 @@ pub fn run(args: &Args) {
 		}
 		run_check(&mut s, "tween", &scn, 4, true);
 	}
+	// ---- spatial tracks nested in spatial tracks
+	for _ in 0..n / 4 {
+		run_nested(&mut s, &mut rng);
+	}
 	// ---- F22 witness (side_preference_inside_head_refuted of Props.v), replayed on the real code
 	{
 		let mut w = Scn::base();
@@ -967,6 +1075,29 @@ pub fn run(args: &Args) {
 	}
 	for i in 0..n * 2 {
 		monitor_gains(&mut s, &mut rng, i % 8 == 0);
+	}
+	// ---- the libm hypotheses of attenuation_of_distance_R (powf10_ok) on this platform:
+	// 10^x monotone on [-3, 0], non-negative, 1 at 0
+	{
+		let count: u32 = if args.thorough { 1 << 22 } else { 1 << 17 };
+		let lo = (-3.0f32).to_bits();
+		let step = ((lo - 0x8000_0000) / count).max(1);
+		let (mut b, mut prev, mut bad) = (lo, 0.0f32, 0u64);
+		while b >= 0x8000_0000 + step {
+			let v = 10f32.powf(f32::from_bits(b));
+			if !(v >= prev) || !(v >= 0.0) || !(v <= 1.0) {
+				bad += 1;
+			}
+			prev = v;
+			b -= step;
+		}
+		if 10f32.powf(0.0) != 1.0 || 10f32.powf(-0.0) != 1.0 {
+			bad += 1;
+		}
+		s.hist.insert("libm_powf10_monotone_samples".into(), count as u64);
+		if bad > 0 {
+			s.fail("powf(10, x) sweep over [-3, 0]".into(), format!("{bad} violations of the oracle hypotheses (monotone, in [0, 1], 1 at zero)"), None);
+		}
 	}
 	s.finish();
 }
